@@ -110,7 +110,7 @@ def make_chain(model, N, ln):
 class Chains(Sub):
     name = 'chain'
     doc = 'Gaussian / FJC / GaussianRing vs own pair sum, bounds, limits, independence, scaling'
-    budget = {'quick': 2000, 'thorough': 40000}
+    budget = {'quick': 2000, 'thorough': 240000}
 
     def strategy(self, tier):
         return chain_spec(4096 if tier == 'quick' else 32768)
@@ -238,7 +238,7 @@ def koyama_params(p):
 class Koyama(Sub):
     name = 'koyama'
     doc = 'DiscreteKoyama: rejection rule, evaluability, pair-sum over N sites, limits, curvature, rigid bond, independence, scaling'
-    budget = {'quick': 600, 'thorough': 12000}
+    budget = {'quick': 600, 'thorough': 48000}
 
     def strategy(self, tier):
         return koyama_spec()
@@ -365,7 +365,7 @@ def nfjc_reference(N, q):
 class NFJC(Sub):
     name = 'nfjc'
     doc = 'NonOverlappingFreelyJointedChain: evaluability/finiteness on Domain grids, limits, bound, independence, k*l scaling'
-    budget = {'quick': 120, 'thorough': 1600}
+    budget = {'quick': 120, 'thorough': 4800}
 
     def strategy(self, tier):
         kk = st.one_of(st.lists(specs.logfloat(-3, 2, 6), min_size=1, max_size=12).map(lambda v: {'kind': 'log', 'values': sorted(set(v))}),
